@@ -53,6 +53,41 @@ pub struct EchoC {
 }
 impl sylvia::cw_std::CustomMsg for EchoA {}
 
+/// Internal twins of the response types: same wire format, different schema name.  Used by
+/// query handlers declared `#[sv::msg(query, resp=EchoX)]` whose signature spells
+/// `Result<EchoXTwin, _>` (the explicit attribute names the published type).
+#[cw_serde]
+pub struct EchoATwin {
+    pub rec: String,
+}
+#[cw_serde]
+pub struct EchoBTwin {
+    pub rec: String,
+    pub b: u32,
+}
+#[cw_serde]
+pub struct EchoCTwin {
+    pub rec: String,
+    pub c: Vec<String>,
+}
+impl FromRec for EchoATwin {
+    fn from_rec(rec: &str) -> Self {
+        EchoATwin { rec: rec.to_string() }
+    }
+}
+impl FromRec for EchoBTwin {
+    fn from_rec(rec: &str) -> Self {
+        EchoBTwin { rec: rec.to_string(), b: rec.len() as u32 }
+    }
+}
+impl FromRec for EchoCTwin {
+    fn from_rec(rec: &str) -> Self {
+        EchoCTwin { rec: rec.to_string(), c: vec!["c".to_string()] }
+    }
+}
+/// Result alias generic over the response type (for `resp=<type parameter>`).
+pub type GenResult<T, E> = Result<T, E>;
+
 pub type EchoAResult<E> = Result<EchoA, E>;
 pub type EchoBResult<E> = Result<EchoB, E>;
 pub type EchoCResult<E> = Result<EchoC, E>;
